@@ -126,3 +126,26 @@ package zenodb
 //@   at call (*zenodb.rowStore).insert assert where_passed: where == nil || unboxBool(ok)
 //@   at call (*zenodb.rowStore).insert assert row_fields: callarg1.vals == tsp && callarg1.metadata == dims && callarg1.offset == offset && callarg1.source == source && callarg1.key == key
 //@   at call (*zenodb.rowStore).insert assert row_time: untilOf(callarg1.vals) == abs(ts)
+
+// C14/C03: writing one row of the next filestore. Raw bytes are passed through only on an unsorted flush that was
+// handed a raw row; otherwise every column is truncated at the flush's truncateBefore with its own field's accumulator
+// width and the table's resolution, and a row is written only if one of its truncated columns survives.
+//@ func (*fileStore).doWrite
+//@   requires len(fields) == len(columns)
+//@   requires wf_cols: forall j in 0..len(columns) :: wfSeq(columns[j], fields[j].Expr.EncodedWidth()) && (len(columns[j]) > 0 ==> normalAbs(untilOf(columns[j])))
+//@   requires res_ok: fs != nil && fs.t != nil && fs.t.Resolution > 0 && fs.t.Resolution < 1152921504606846976 && roomTime(truncateBefore)
+//@   modifies *
+//@   capture sortedRow Slice = result 0 of call bytes.Buffer).Bytes
+//@   at call io.WriteCloser.Write assert raw_only_unsorted: (captured(sortedRow) && callarg1 == sortedRow) || (!shouldSort && raw != nil && callarg1 == raw)
+//@   at call Sequence).Truncate assert truncate_each_column: callarg0 == columns[i] && callarg1 == fields[i].Expr.EncodedWidth() && callarg2 == fs.t.Resolution && callarg3 == truncateBefore && abs(callarg4) == 0
+//@   at call io.Writer.Write assert row_has_live_column: exists j in 0..len(columns) :: columns[j] != nil
+//@   at call io.Writer.Write assert writes_key_or_column: callarg1 == key || (exists j in 0..len(columns) :: callarg1 == columns[j])
+//@   loop 0 modifies columns[0:len(columns)]
+//@   loop 0 invariant bounds: 0 <= $i && $i <= len(columns)
+//@   loop 0 invariant live: hasActiveSequence ==> (exists j in 0..$i :: columns[j] != nil)
+//@   loop 0 invariant truncated: forall j in 0..$i :: len(columns[j]) > 0 && abs(truncateBefore) != 0 ==> endOf(columns[j], periodsOf(columns[j], fields[j].Expr.EncodedWidth()), fs.t.Resolution) > abs(truncateBefore) - fs.t.Resolution
+//@   loop 0 invariant done_len: forall j in 0..$i :: len(columns[j]) == 0 || len(columns[j]) >= 8
+//@   loop 1 modifies nothing
+//@   loop 2 modifies nothing
+//@   loop 3 modifies nothing
+//@   loop 0 invariant rest_wf: forall j in $i..len(columns) :: wfSeq(columns[j], fields[j].Expr.EncodedWidth()) && (len(columns[j]) > 0 ==> normalAbs(untilOf(columns[j])))
